@@ -305,6 +305,23 @@ func rulePendDone(c *Ctx) {
 							return true
 						}
 					}
+					// once.Do(func() { close(p.doneCh) }): closed here unless it was already
+					if p.CalleeName(f, call) == "sync.Once.Do" && len(call.Args) == 1 {
+						if fl, ok := ast.Unparen(call.Args[0]).(*ast.FuncLit); ok {
+							closes := false
+							ast.Inspect(fl.Body, func(y ast.Node) bool {
+								if c2, ok := y.(*ast.CallExpr); ok && len(c2.Args) == 1 {
+									if id, ok := c2.Fun.(*ast.Ident); ok && id.Name == "close" && isPendingField(p, info, c2.Args[0], "doneCh") {
+										closes = true
+									}
+								}
+								return true
+							})
+							if closes {
+								return true
+							}
+						}
+					}
 				}
 				return false
 			}
@@ -332,7 +349,7 @@ var cfgWriters = map[string]map[string]string{
 	"ServeConfig.Plugins":              {},
 	"ServeConfig.GRPCServer":           {},
 	"ServeConfig.TLSProvider":          {},
-	"ClientConfig.VersionedPlugins":    {"Client.Start": "folds the legacy Plugins/ProtocolVersion pair into the version map before launching"},
+	"ClientConfig.VersionedPlugins":    {"Client.Start": "folds the legacy Plugins/ProtocolVersion pair into the version map before launching", "NewClient": "the same fold, applied with the other configuration defaults (R-NEG checks its condition wherever it is)"},
 	"ClientConfig.Plugins":             {"Client.Start": "records the plugin set of the negotiated version after the handshake"},
 	"ClientConfig.TLSConfig":           {"Client.Start": "AutoMTLS: installs the generated client certificate configuration"},
 	"ClientConfig.AutoMTLS":            {},
@@ -344,7 +361,7 @@ var cfgWriters = map[string]map[string]string{
 	"ClientConfig.SecureConfig":        {},
 	"ClientConfig.Managed":             {},
 	"ClientConfig.HandshakeConfig":     {},
-	"ClientConfig.UnixSocketConfig":    {},
+	"ClientConfig.UnixSocketConfig":    {"NewClient": "a nil field may be replaced by an empty configuration with the other defaults (R-DEFAULTS checks that only an unset field is defaulted; R-COPY/sockcfg that the client does not keep the caller's pointer)"},
 	"ClientConfig.AllowedProtocols":    {"NewClient": "nil list defaults to {netrpc} (R-SIB/switch checks the value)"},
 	"HandshakeConfig.ProtocolVersion":  {},
 	"HandshakeConfig.MagicCookieKey":   {},
